@@ -19,6 +19,10 @@ type Plan struct {
 	Sizes    []int // consumed in order
 	Cycle    bool  // repeat Sizes when exhausted (otherwise unlimited afterwards)
 	Coalesce bool  // before returning data, let 1 ms of (virtual) time pass so that everything the writer can write has been written
+	// EOFWithData: when the writer has closed and a Read drains the rest, return
+	// the bytes together with io.EOF in one call (as io.Reader permits and
+	// wrapping connections - TLS, proxies, pipes - do)
+	EOFWithData bool
 }
 
 type queue struct {
@@ -95,7 +99,11 @@ func (e *End) Read(p []byte) (int, error) {
 			}
 			copy(p, e.in.buf[:n])
 			e.in.buf = e.in.buf[n:]
+			last := e.in.closed && len(e.in.buf) == 0
 			e.in.mu.Unlock()
+			if last && e.plan.EOFWithData {
+				return n, io.EOF
+			}
 			return n, nil
 		}
 		if closed {
@@ -158,6 +166,14 @@ func (e *End) Close() error {
 		q.signal()
 	}
 	return nil
+}
+
+// CloseWrite closes only the direction this end writes to.
+func (e *End) CloseWrite() {
+	e.out.mu.Lock()
+	e.out.closed = true
+	e.out.mu.Unlock()
+	e.out.signal()
 }
 
 // Wire returns everything this end has put on the wire so far.
